@@ -340,6 +340,54 @@ def _law_case(args):
     return cnt, out
 
 
+def _replace_case(args):
+    """A user LUT replaced on disk under the same path / an identifier
+    registered again for another file: the next call uses the new table."""
+    scratch, = args
+    from dclab.features.emodulus import get_emodulus, load
+    out = []
+    cnt = 0
+    arrA = jitter_lut("replA")
+    arrB = arrA.copy()
+    arrB[:, 2] *= 2.0
+    meta = user_meta("VF-repl")
+    x = np.percentile(arrA[:, 0], [30, 50, 70])
+    d = np.percentile(arrA[:, 1], [40, 50, 60])
+    kw = dict(area_um=x, deform=d, medium=10.0, channel_width=20.0,
+              flow_rate=0.04, px_um=0.34, temperature=None, visc_model=None)
+    p1 = scratch / "c05_repl.txt"
+    p2 = scratch / "c05_repl2.txt"
+    for how in ("path", "identifier"):
+        cnt += 1
+        case = {"kind": "replace", "how": how}
+        try:
+            write_lut_file(p1, arrA, meta)
+            if how == "path":
+                e1 = np.asarray(get_emodulus(lut_data=p1, **kw))
+                write_lut_file(p1, arrB, meta)
+                e2 = np.asarray(get_emodulus(lut_data=p1, **kw))
+            else:
+                load.EXTERNAL_LUTS.pop("VF-repl", None)
+                load.register_lut(p1, "VF-repl")
+                e1 = np.asarray(get_emodulus(lut_data="VF-repl", **kw))
+                write_lut_file(p2, arrB, meta)
+                load.EXTERNAL_LUTS.pop("VF-repl", None)
+                load.register_lut(p2, "VF-repl")
+                e2 = np.asarray(get_emodulus(lut_data="VF-repl", **kw))
+            if not np.allclose(e2, 2 * e1, rtol=1e-12, equal_nan=True) or \
+                    np.isnan(e1).all():
+                out.append(violation(
+                    GE, "depends-on-earlier-calls", case,
+                    f"LUT replaced via {how}: {e2} is not twice {e1}",
+                    {"lut": "replaced", "how": how}))
+        except BaseException as e:
+            out.append(violation(GE, "exception", case,
+                                 f"{type(e).__name__}: {e}",
+                                 {"lut": "replaced",
+                                  "exc": type(e).__name__}))
+    return cnt, out
+
+
 LUTS = ["builtin:LE-2D-FEM-19", "builtin:HE-2D-FEM-22",
         "builtin:HE-3D-FEM-22", "tuple:userA", "path:userB", "ident:userC",
         "tuple:uservol"]
@@ -359,6 +407,7 @@ def run(ctx):
                           4000 if (big and ctx.quick) else None, scratch))
     res = par.pmap(_lut_case, items)
     res += par.pmap(_law_case, [(lid, scratch) for lid in LUTS])
+    res += par.pmap(_replace_case, [(scratch,)])
     viols = []
     cnt = 0
     for c, vs in res:
@@ -390,6 +439,9 @@ def run(ctx):
 
 
 def replay(case, ctx):
+    if case["kind"] == "replace":
+        _, vs = _replace_case((ctx.scratch,))
+        return [v for v in vs if v["case"].get("how") == case.get("how")]
     if case["kind"] == "lut":
         _, vs = _lut_case((case["lut"], [case["cfg"]], None, ctx.scratch))
         return vs
